@@ -39,6 +39,21 @@ theorem mapped_same_key (ip : Bytes) (port : Nat) (h : ip.length = 4) :
     fpAddr ⟨ip, port⟩ = fpAddr ⟨v4prefix ++ ip, port⟩ := by
   unfold fpAddr to16 v4prefix; simp [h]
 
+/-- `net.IP.Equal` decides the same relation as the key: same address up to the two spellings of IPv4 — so the
+    lookups by peer address (`AddrEqual`: channel bindings) and by key (`Fingerprint`: allocations; permissions are
+    keyed by `IP.String()`, compared with this relation by the harness) agree on what "the same address" is -/
+theorem ipEqual_iff (a b : Bytes) (ha : a.length = 4 ∨ a.length = 16) (hb : b.length = 4 ∨ b.length = 16) :
+    ipEqual a b = true ↔ to16 a = to16 b := by
+  unfold ipEqual to16
+  rcases ha with ha | ha <;> rcases hb with hb | hb <;> simp [ha, hb]
+  exact eq_comm
+
+theorem addrEqual_iff_same_key (a b : Addr) (ha : a.Valid) (hb : b.Valid) :
+    addrEqual a b = true ↔ fpAddr a = fpAddr b := by
+  rw [fpAddr_injective a b ha hb]
+  unfold addrEqual canon
+  rw [Bool.and_eq_true, ipEqual_iff _ _ ha.1 hb.1, beq_iff_eq, Prod.mk.injEq]
+
 /-- why `To16` matters (the shape of seeded change C04i): copying the unpadded 4-byte form into the key would
     make 10.0.0.2 and a00:2:: one client -/
 example : copy16 [10, 0, 0, 2] = copy16 [10, 0, 0, 2, 0, 0, 0, 0, 0, 0, 0, 0, 0, 0, 0, 0] := by decide
